@@ -36,6 +36,8 @@ func ruleC07(r *Report) {
 		return fn.Signature.Recv() != nil && (isMethodOf(fn, "IdpAuthnRequest") || isMethodOf(fn, "IdentityProvider")) || isElementSerialiser(p, fn)
 	})
 	safely(r, func() { checkNoCDATA(r, p, "C07.escape") })
+	// the reading side: what the SP unmarshals is the verified element's own content (white-space-only values included)
+	safely(r, func() { checkUnmarshalBytes(r, p, findSigRoles(p), "C07.verbatim") })
 	r.Rule("C07.sig-methods", "the SP's signature validator leaves the choice of acceptable signature and digest algorithms to goxmldsig (it does not read SignatureMethod/DigestMethod/Algorithm itself): every method the IdP can be configured with verifies", 1)
 	safely(r, func() { checkNoAlgorithmFilter(r, p, "C07.sig-methods") })
 	// "every registered SP metadata with an encryption certificate": the IdP encrypts to the certificate registered now
